@@ -48,6 +48,9 @@ func (h *Hist) after(r *Rep) (string, string) {
 	return "", ""
 }
 
+// After runs the per-step monitors for r (for checks that drive replicas themselves).
+func (h *Hist) After(r *Rep) (string, string) { return h.after(r) }
+
 // Local performs a local call on r.
 func (h *Hist) Local(r *Rep, op Op) (interface{}, error, string, string) {
 	h.S.Step("r%d %s", r.Idx, op)
